@@ -44,9 +44,14 @@ class LRURecorder:
     def __init__(self):
         self.events: dict = {}      # id(cache) -> list of events
         self.tls = threading.local()
+        self.threaded = False       # True while several threads use the caches
 
     def log(self, cache, op, k, v, ret):
         lock = getattr(cache, "_lock", None)
+        if self.threaded and lock is not None and op == "len":
+            # len() is not overridden to take the lock: its linearization point cannot be observed
+            # from outside, so under threads it is not logged rather than logged at a guessed position
+            return None
         evs = self.events.setdefault(id(cache), [])
         e = {"op": op, "k": k, "v": v, "ret": ret, "len": len(cache._cache),
              "locked": bool(lock.locked()) if lock is not None else False,
